@@ -49,19 +49,21 @@ class LoaderFacts:
         self.pe = pe
         loader = find_function(pe, "_load_parameter_group_from_yaml", "primary anchor")
         self.loader = loader
-        la = local_assigns(loader)
-        consts = {n.value for n in ast.walk(loader) if isinstance(n, ast.Constant) and isinstance(n.value, str)}
-        # constants may also live in helpers reachable from the loader
-        for h in called_functions(loader, pe):
-            consts |= {
-                n.value for n in ast.walk(pe.functions[h]) if isinstance(n, ast.Constant) and isinstance(n.value, str)
-            }
+        from .guards import scope_functions
+
+        scope = scope_functions(pe, loader)
+        la = {}
+        for f_ in scope:
+            la.update(local_assigns(f_))
+        la.update({k: v for k, v in pe.assigns.items() if k not in la})
+        consts = {n.value for f_ in scope for n in ast.walk(f_) if isinstance(n, ast.Constant) and isinstance(n.value, str)}
+        consts |= {n.value for v in pe.assigns.values() for n in ast.walk(v) if isinstance(n, ast.Constant) and isinstance(n.value, str)}
         missing = [s for s in LOADER_STRINGS if s not in consts]
         if missing:
             raise AnalysisError(f"model-drift: loader no longer mentions {missing}")
         # --- keys not transferred from a dated entry
         self.not_trans_keys = None
-        for n in ast.walk(loader):
+        for n in [x for f_ in scope for x in ast.walk(f_)]:
             if isinstance(n, ast.Compare) and len(n.ops) == 1 and isinstance(n.ops[0], ast.NotIn):
                 lst = _str_list(n.comparators[0], la)
                 if lst and "deviation_from" in lst:
@@ -70,7 +72,7 @@ class LoaderFacts:
             raise AnalysisError("model-drift: list of non-transferred entry keys not found in the loader")
         # --- keys transferred from the parameter level
         self.add_trans_keys = None
-        for n in ast.walk(loader):
+        for n in [x for f_ in scope for x in ast.walk(f_)]:
             if isinstance(n, ast.For):
                 lst = _str_list(n.iter, la)
                 if lst and "type" in lst:
@@ -79,7 +81,7 @@ class LoaderFacts:
             raise AnalysisError("model-drift: parameter-level transferred keys (type, progressionsfaktor) not found")
         # --- rounding loader: the function that receives raw[...]["rounding"]
         self.rounding_loader = None
-        for n in ast.walk(loader):
+        for n in [x for f_ in scope for x in ast.walk(f_)]:
             if isinstance(n, ast.Call) and isinstance(n.func, ast.Name) and n.func.id in pe.functions:
                 for a in n.args:
                     if isinstance(a, ast.Subscript) and isinstance(a.slice, ast.Constant) and a.slice.value == "rounding":
@@ -91,7 +93,8 @@ class LoaderFacts:
 
     def _rounding_keys(self, fn):
         """which keys of a dated rounding entry reach the environment: list of names, or None = all"""
-        la = local_assigns(fn)
+        la = dict(self.pe.assigns)
+        la.update(local_assigns(fn))
         for n in ast.walk(fn):
             if isinstance(n, ast.Compare) and len(n.ops) == 1 and isinstance(n.ops[0], ast.In):
                 lst = _str_list(n.comparators[0], la)
